@@ -22,6 +22,7 @@ from hypergraph.runners._shared.input_normalization import (
 )
 from hypergraph.runners._shared.types import ErrorHandling, GraphState, RunResult, RunStatus, _generate_run_id
 from hypergraph.runners._shared.validation import (
+    _validate_on_internal_override,
     resolve_runtime_selected,
     validate_inputs,
     validate_map_compatible,
@@ -236,6 +237,7 @@ class SyncRunnerTemplate(BaseRunner, ABC):
         validate_node_types(graph, self.supported_node_types)
         validate_map_compatible(graph)
         _validate_error_handling(error_handling)
+        _validate_on_internal_override(on_internal_override)
         select = _materialize_select(select)
 
         map_over_list = [map_over] if isinstance(map_over, str) else list(map_over)
